@@ -285,6 +285,18 @@ func linOfStop(v ssa.Value, stop map[ssa.Value]bool) linform {
 	return linform{coef: map[ssa.Value]int64{v: 1}}
 }
 
+// isPacketStart: v is exactly Len() − 187 for one Len() call on the packet iterator.
+func isPacketStart(v ssa.Value) bool {
+	lf := linOf(v)
+	want := linform{coef: map[ssa.Value]int64{}, c: -187}
+	for src := range lf.coef {
+		if c, isC := src.(*ssa.Call); isC && ssau.CalleeName(&c.Call) == iterRecv+"Len" {
+			want.coef[src] = 1
+		}
+	}
+	return lf.equal(want) && len(want.coef) == 1
+}
+
 // PacketSizeFlow is C08 (c).
 func PacketSizeFlow(p *load.Program, r *report.Report) {
 	const rule = "psize"
@@ -369,6 +381,18 @@ func PacketSizeFlow(p *load.Program, r *report.Report) {
 						}
 						bad = append(bad, "a branch condition depends on the packet size"+at)
 					default:
+						if f == pp && isPacketStart(x) {
+							// Len − 188 + 1 is the offset of the packet's sync byte: the very value i.Offset() returns after the Seek.
+							// Held in a local it is used like that Offset() result (payload arithmetic); only the Seek is judged here.
+							for _, rr := range *x.Referrers() {
+								if ci, isCall := rr.(ssa.CallInstruction); isCall && ssau.CalleeName(ci.Common()) == iterRecv+"Seek" {
+									seekForms++
+									ok = append(ok, "Seek(Len − 188 + 1): skips the leading extra bytes")
+								}
+							}
+							ok = append(ok, "Len − 188 + 1, the offset of the packet start")
+							continue
+						}
 						if !derived[x] {
 							derived[x] = true
 							work = append(work, x)
